@@ -593,12 +593,26 @@ impl<T: bytemuck::Pod> PodProbe<T> {
     }
 }
 
+struct NoUninitProbe<T>(core::marker::PhantomData<T>);
+trait NotNoUninit {
+    fn is_no_uninit(&self) -> bool {
+        false
+    }
+}
+impl<T> NotNoUninit for NoUninitProbe<T> {}
+impl<T: bytemuck::NoUninit> NoUninitProbe<T> {
+    #[allow(dead_code)]
+    fn is_no_uninit(&self) -> bool {
+        true
+    }
+}
+
 fn observers<T: GlamTy + core::fmt::Debug>(x: &T) -> (Vec<u64>, String) {
     (model_bits(x), format!("{x:?}"))
 }
 
 /// Reads from arbitrary bytes (needs only AnyBitPattern); `is_pod` adds the write-side checks.
-fn bytes_case<T>(plan: &Plan, v: &Val, is_pod: bool, bytes_of: Option<fn(&T) -> Vec<u8>>, cast_slice_rt: Option<fn(&T) -> Result<(), String>>) -> CaseOut
+fn bytes_case<T>(plan: &Plan, v: &Val, (is_pod, is_no_uninit): (bool, bool), bytes_of: Option<fn(&T) -> Vec<u8>>, cast_slice_rt: Option<fn(&T) -> Result<(), String>>) -> CaseOut
 where
     T: GlamTy + V + bytemuck::AnyBitPattern + core::fmt::Debug,
 {
@@ -613,6 +627,14 @@ where
             let packed = size == T::N * es;
             if is_pod && !packed {
                 out.fail(format!("pod-with-padding:{name}"), format!("{name} is Pod but has {} padding bytes", size - T::N * es));
+            }
+            // `NoUninit` is what bytes_of / cast_slice actually require: claiming it for a padded type exposes the padding
+            // bytes as part of the byte image ("padding excluded") and is the write half of Pod
+            if is_no_uninit && !packed {
+                out.fail(
+                    format!("pod-with-padding:{name}"),
+                    format!("{name} implements bytemuck::NoUninit (bytes_of / cast_slice accept it) but has {} padding bytes", size - T::N * es),
+                );
             }
         }
         Plan::PodZeroed => {
@@ -972,8 +994,8 @@ macro_rules! e19 {
     };
     (@serde $T:ident y) => { Some(serde_case::<$T> as CaseFn) };
     (@serde $T:ident n) => { None };
-    (@bytes $T:ident pod) => { Some((|p: &Plan, v: &Val| bytes_case::<$T>(p, v, PodProbe::<$T>(core::marker::PhantomData).is_pod(), Some(|x: &$T| bytemuck::bytes_of(x).to_vec()), Some(cast_slice_roundtrip::<$T>))) as CaseFn) };
-    (@bytes $T:ident any) => { Some((|p: &Plan, v: &Val| bytes_case::<$T>(p, v, PodProbe::<$T>(core::marker::PhantomData).is_pod(), None, None)) as CaseFn) };
+    (@bytes $T:ident pod) => { Some((|p: &Plan, v: &Val| bytes_case::<$T>(p, v, (PodProbe::<$T>(core::marker::PhantomData).is_pod(), NoUninitProbe::<$T>(core::marker::PhantomData).is_no_uninit()), Some(|x: &$T| bytemuck::bytes_of(x).to_vec()), Some(cast_slice_roundtrip::<$T>))) as CaseFn) };
+    (@bytes $T:ident any) => { Some((|p: &Plan, v: &Val| bytes_case::<$T>(p, v, (PodProbe::<$T>(core::marker::PhantomData).is_pod(), NoUninitProbe::<$T>(core::marker::PhantomData).is_no_uninit()), None, None)) as CaseFn) };
     (@bytes $T:ident n) => { None };
     (@rkyv $T:ident y) => { Some(rkyv_case::<$T> as CaseFn) };
     (@rkyv $T:ident n) => { None };
